@@ -1,2 +1,26 @@
 import FpgoVerif.Props.C03
 /-! `#print axioms` for every property theorem of C03; parsed by `check`. -/
+#print axioms FpgoVerif.C03.C03_map
+#print axioms FpgoVerif.C03.C03_mapIndexed
+#print axioms FpgoVerif.C03.C03_keys
+#print axioms FpgoVerif.C03.C03_values
+#print axioms FpgoVerif.C03.C03_reduce
+#print axioms FpgoVerif.C03.C03_dropEq
+#print axioms FpgoVerif.C03.C03_exists
+#print axioms FpgoVerif.C03.C03_every
+#print axioms FpgoVerif.C03.C03_some
+#print axioms FpgoVerif.C03.C03_partition
+#print axioms FpgoVerif.C03.C03_drop
+#print axioms FpgoVerif.C03.C03_dropLast
+#print axioms FpgoVerif.C03.C03_take
+#print axioms FpgoVerif.C03.C03_takeLast
+#print axioms FpgoVerif.C03.C03_tail
+#print axioms FpgoVerif.C03.C03_head
+#print axioms FpgoVerif.C03.C03_duplicateSlice
+#print axioms FpgoVerif.C03.C03_prepend
+#print axioms FpgoVerif.C03.C03_isDistinct
+#print axioms FpgoVerif.C03.C03_isEqual
+#print axioms FpgoVerif.C03.C03_uniqBy
+#print axioms FpgoVerif.C03.C03_distinct
+#print axioms FpgoVerif.C03.C03_filter
+#print axioms FpgoVerif.C03.C03_reject
